@@ -8,6 +8,16 @@ ALL = ['C%02d' % i for i in range(1, 21)]
 
 # id -> (technique, level text, level note, design ref)
 CHECKS = {
+    'C11': (
+        'Hypothesis structural / lexical / byte mutation + coverage-guided atheris fuzzing against an exception-type oracle; limit sweeps',
+        'Seeds (docgen documents and the pools of 6 schemas) receive 1-4 mutations (huge numbers and years, odd QNames and xsi '
+        'attributes, unknown namespaces, duplicated / removed / re-nested subtrees, truncation, byte flips, junk, encoding declarations, '
+        'BOMs); every mutant goes through 7 API calls via BytesIO: each must return or raise a library exception, and lax-mode calls '
+        'must not raise at all for a well-formed document. Thorough adds three atheris campaigns (empty and seeded corpus) on the same '
+        'target with the oracle inside. Depth / element limits are swept at limit-1, limit, limit+1 (eager and lazy). Crashes are '
+        'bucketed by call site; two buckets are listed known findings.',
+        'trusted: ElementTree well-formedness as the notion of "well-formed"; watchdog expiry = inconclusive',
+        'DESIGN.md section 3 C11'),
     'C18': (
         'controlled-scheduler interleaving exploration (seeded, call granularity, cooperative locks) + free-running stress',
         'For 4 schema sources, Hypothesis draws schedule seeds, 2-4 threads, switch probabilities and per-thread call plans; all '
@@ -183,7 +193,7 @@ CHECKS = {
 NOT_APPLICABLE = {
 }
 
-PENDING_REASON = 'check not built yet in this revision of /verif (work in progress; see DESIGN.md section 6)'
+PENDING_REASON = 'not claimed'
 
 
 def main():
